@@ -18,6 +18,7 @@ MUTANTS = [
            lambda seg: seg + "\n        self._init = init"), 'M2', 'field rebound outside constructor'),
     Mutant('hash_extra_field', 'src/pharmpy/model/datainfo.py', edit_node('DataInfo.__hash__', lambda n, seg: isinstance(n, ast.Call) and seg == 'hash(self._columns)',
            lambda seg: 'hash((self._columns, self._path))'), 'M3', 'hash uses a field eq ignores'),
+    Mutant('model_hash_with_dataset', 'src/pharmpy/model/model.py', edit_node('Model.__hash__', lambda n, seg: isinstance(n, ast.Attribute) and seg == 'self._value_type', lambda seg: 'hash_df_runtime(self._dataset) if self._dataset is not None else None, self._value_type'), 'M3', 'dataset hashed although __eq__ ignores it (the defect repaired by 4b81d1b)'),
     Mutant('hash_graph_identity', 'src/pharmpy/model/statements.py', edit_node('CompartmentalSystem.__hash__', lambda n, seg: isinstance(n, ast.Return), lambda seg: 'return hash((self._t, self._g))'), 'M3', 'identity hash'),
     Mutant('raw_ctor_add', 'src/pharmpy/model/parameters.py', edit_node('Parameters.__add__', lambda n, seg: isinstance(n, ast.Attribute) and seg == 'Parameters.create', lambda seg: 'Parameters'), 'M4', 'validation bypass'),
     Mutant('bounds_only_if_not_fix', 'src/pharmpy/model/parameters.py', edit_node('Parameter.create', compound_containing('if init < lower', ast.If),
